@@ -266,7 +266,8 @@ def run(tier, replay=None):
                        f"{'/' + p['mf'] + '/' + p['mode'] if p['slice'] == 'nice' else ''} but the code gives {obs} {det}")
     ctx.cov["model_mispredictions"] = len(mismatches)
     ctx.cov["model_class_differs_same_side_of_contract"] = exact_mismatch
-    if len(mismatches) > len(pts) // 10:
+    # only when the property oracles found nothing: otherwise the VIOLATION lines (with replays) are the verdict
+    if len(mismatches) > len(pts) // 10 and not ctx.violations and not ctx.known_hits:
         raise ToolError(f"Options.tla mispredicts {len(mismatches)} of {len(pts)} grid points: the model does not describe this tree "
                         f"(first: {mismatches[0]})")
     ctx.cov["grid_points"] = len(pts)
